@@ -274,7 +274,8 @@ func (p *Program) EdgeSuccs(f *ssa.Function, globs ...string) []Loc {
 		for k, succ := range b.Succs {
 			for _, fact := range p.Facts(ifi.Cond, k == 0) {
 				if GlobAny(globs, fact) {
-					out = append(out, Loc{succ, 0})
+					known, _ := trackEq("", fact)
+					out = append(out, Loc{B: succ, Known: known})
 				}
 			}
 		}
